@@ -117,10 +117,8 @@ Definition live_after (s : O.st) (lv : list nat) (e : O.ev) : list nat :=
   | O.EReg tok =>
       match tok with
       | [] => lv
-      | _ => match O.tget (O.crc64 tok) (O.tbl s) with
-             | Some o => remove_nat (O.o_id o) lv     (* ErrKeyAlreadyExists path: the deferred cleanUp evicts the holder of the key *)
-             | None => lv
-             end
+      | _ => lv     (* a fresh entry still waits for its first response; a token in use is refused and
+                       the holder of the key stays (the clean-up is installed only after LoadOrStore) *)
       end
   | O.EMsg m _ =>
       match O.tget (O.crc64 (O.m_tok m)) (O.tbl s) with
